@@ -24,7 +24,7 @@ for ID in "$@"; do
     [ -f "$f" ] || continue
     name=$(basename $f .sh)
     kind=mutants
-    case "$name" in ok_*|silent-*) kind=benign;; esac
+    case "$name" in ok_*|silent-*|keep_*) kind=benign;; esac
     case "$f" in */preserve/*|*/preserving/*|*/benign/*|*/silent/*) kind=benign;; esac
     mkdir -p /verif/gsv/$kind/$ID
     desc=$(grep -m1 '^# ' $f | sed 's/^# //')
